@@ -129,7 +129,8 @@ func execC17(ctx *Ctx, in *Input) *Result {
 			continue
 		}
 		clash := rawCodesClash(sc.Auto, sc.Feeds)
-		for vn, u := range sc.Units {
+		for _, u := range sc.sortedUnits() {
+			vn := u.Variant.String()
 			if u.GenErr != "" || u.CompErr != "" {
 				res.Count("skipped_unit_unusable(C12/C16)", 1)
 				continue
